@@ -30,6 +30,7 @@ NARY = ["And", "Or", "Plus", "Times"]
 BIN = ["Implies", "Iff", "Minus", "Div", "LE", "LT", "GE", "GT", "Equals"]
 WORKERS = 8
 LIMIT = 60  # seconds per history (a history takes milliseconds; the limit only stops a looping mutant)
+RETRY_LIMIT = 180
 
 
 def tla_set(xs):
@@ -236,20 +237,24 @@ def random_history(tid, seed, nops):
     return s.finish(tid)
 
 
-def _work(job):
+def _work(job, limit=None):
     """Runs in a pool process: one history under a time limit."""
     kind, tid, payload = job
     try:
-        with time_limit(LIMIT):
+        with time_limit(limit or LIMIT):
             if kind == "replay":
                 return ("trace", replay_history(tid, payload))
             return ("trace", random_history(tid, payload[0], payload[1]))
     except ImplTimeout:
-        return ("timeout", {"id": tid, "job": payload})
+        return ("timeout", job)
     except MachineryError as ex:
         return ("machinery", str(ex))
     except Exception as ex:
         return ("crash", {"id": tid, "job": payload, "exc": repr(ex), "cls": type(ex).__name__})
+
+
+def _work_again(job):
+    return _work(job, RETRY_LIMIT)
 
 
 def run_jobs(ctx, jobs):
@@ -265,12 +270,24 @@ def run_jobs(ctx, jobs):
         return []
     with mp.get_context("fork").Pool(WORKERS) as pool:
         outs = pool.map(_work, jobs, chunksize=max(1, min(200, len(jobs) // (WORKERS * 4) or 1)))
+    late = [i for i, (kind, x) in enumerate(outs) if kind == "timeout"]
+    if late:
+        # a history takes milliseconds; on an overloaded machine a process can stall for a long time:
+        # try the few late ones again, alone, before calling the implementation non-terminating
+        with mp.get_context("fork").Pool(min(2, len(late))) as pool:
+            again = pool.map(_work_again, [jobs[i] for i in late], chunksize=1)
+        for i, o in zip(late, again):
+            outs[i] = o
     traces = []
     for kind, x in outs:
         if kind == "trace":
             traces.append(x)
         elif kind == "timeout":
-            ctx.violation("impl-nonterminating", "a construction history does not terminate within %d s" % LIMIT, x)
+            ctx.violation(
+                "impl-nonterminating",
+                "a construction history does not terminate within %d s (tried twice)" % RETRY_LIMIT,
+                {"id": x[1], "job": x[2]},
+            )
         elif kind == "machinery":
             raise MachineryError(x)
         else:
